@@ -499,10 +499,25 @@ func (w *c03World) plantFault(id string, ws int64) func() {
 	default:
 		return func() {}
 	}
-	if err := os.Mkdir(p, 0o755); err != nil {
-		return func() {}
+	// whatever is under the name (a stale temporary file planted earlier) is moved aside and put back afterwards:
+	// a failed open / rename leaves it as it was
+	side := ""
+	if _, err := os.Lstat(p); err == nil {
+		side = filepath.Join(w.root, fmt.Sprintf("aside-%d", len(w.ever)))
+		if err := os.Rename(p, side); err != nil {
+			w.fail("c03:harness", "cannot move aside "+p)
+			return func() {}
+		}
 	}
-	return func() { os.Remove(p) }
+	if err := os.Mkdir(p, 0o755); err != nil {
+		w.fail("c03:harness", "cannot occupy "+p)
+	}
+	return func() {
+		os.Remove(p)
+		if side != "" {
+			os.Rename(side, p)
+		}
+	}
 }
 
 func (w *c03World) doAccept(id string, data []byte, ws int64) bool {
